@@ -177,6 +177,7 @@ def run_property(mod, tier, seed, replay=None):
     known = load_known()
     counters, sigs, nontrivial_sigs = {}, set(), set()
     hard, known_hits, inconc = [], {}, []
+    hard_unit = []
     by_name = {c.name: c for c in cases}
     for name, rc, err in crashes:
         v = Violation(f"harness process died (rc={rc}) while running this case", "process-crash", {"stderr": err[-1500:]})
@@ -213,6 +214,29 @@ def run_property(mod, tier, seed, replay=None):
                 known_hits.setdefault(v.mechanism, []).append((c, v))
             else:
                 hard.append((c, v))
+    unit_cov = {}
+    if hasattr(mod, "unit_phase") and not replay:
+        try:
+            up = mod.unit_phase(tier, seed)
+        except Inconclusive as e:
+            up = {"violations": [], "counters": {}, "coverage": {}}
+            inconc.append(str(e))
+        for k, v in up["counters"].items():
+            counters[k] = counters.get(k, 0) + v
+        unit_cov = up["coverage"]
+        for name, v, payload in up["violations"]:
+            d = os.path.join(REPLAYS, prop)
+            os.makedirs(d, exist_ok=True)
+            path = os.path.join(d, f"{name}.json")
+            with open(path, "w") as f:
+                json.dump({"property": prop, "unit": payload, "violation": asdict(v)}, f, indent=1)
+            if v.mechanism in known:
+                known_hits.setdefault(v.mechanism, []).append((Case(name), v))
+            else:
+                print(f"VIOLATION property={prop} replay={path}")
+                print(f"  {v.what}")
+                unit_hard = True
+                hard_unit.append(v)
     wall = time.time() - t0
     floors = getattr(mod, "FLOORS", {})
     low = [k for k, fl in floors.items() if counters.get(k, 0) < fl.get(tier, 1)] if not replay else []
@@ -228,10 +252,12 @@ def run_property(mod, tier, seed, replay=None):
         "known_finding_hits": {k: len(v) for k, v in known_hits.items()},
         "inconclusive_notes": inconc[:10],
     }
+    if unit_cov:
+        coverage["unit_phase"] = unit_cov
     if hasattr(mod, "extra_coverage"):
         coverage.update(mod.extra_coverage())
     if not replay:
-        write_evidence(prop, tier, seed, mod.LEVEL, coverage, mod.ASSUMPTIONS, wall, len(hard))
+        write_evidence(prop, tier, seed, mod.LEVEL, coverage, mod.ASSUMPTIONS, wall, len(hard) + len(hard_unit))
     for mech, hits in known_hits.items():
         c, v = hits[0]
         print(f"KNOWN-FINDING: property={prop} {mech}: {v.what} ({len(hits)} case(s), e.g. {c.name})")
@@ -244,6 +270,9 @@ def run_property(mod, tier, seed, replay=None):
                 print(f"  {v.what}")
                 shown += 1
         print(f"{prop}: {len(hard)} violation(s) in {checked} cases ({wall:.1f}s)")
+        return 1
+    if hard_unit:
+        print(f"{prop}: {len(hard_unit)} unit-phase violation(s) ({wall:.1f}s)")
         return 1
     if inconc or low or checked == 0:
         why = "; ".join(inconc[:3] + [f"counter {k}={counters.get(k, 0)} below floor" for k in low])
